@@ -208,3 +208,47 @@ Proof. intros s t H. unfold decoded_wf. rewrite H. reflexivity. Qed.
 
 Lemma errmsg_is_status_type : is_status_type MsgErrorMessage = true.
 Proof. vm_compute. reflexivity. Qed.
+
+(* ---- rendering ---------------------------------------------------------------------------- *)
+
+Lemma default_text_total : forall c, ref_in_table (default_text_ref c) = true.
+Proof.
+  intros c. unfold default_text_ref, in_range, StatusSuccess.
+  destruct (c =? 0); [reflexivity|].
+  destruct ((100 <=? c) && (c <=? 112)) eqn:E1.
+  { apply andb_prop in E1. destruct E1 as [A B]. apply N.leb_le in A, B. cbn. apply N.ltb_lt. lia. }
+  destruct ((200 <=? c) && (c <=? 209)) eqn:E2.
+  { apply andb_prop in E2. destruct E2 as [A B]. apply N.leb_le in A, B. cbn. apply N.ltb_lt. lia. }
+  destruct ((300 <=? c) && (c <=? 301)) eqn:E3.
+  { apply andb_prop in E3. destruct E3 as [A B]. apply N.leb_le in A, B. cbn. apply N.ltb_lt. lia. }
+  destruct ((401 <=? c) && (c <=? 401)) eqn:E4.
+  { apply andb_prop in E4. destruct E4 as [A B]. apply N.leb_le in A, B. cbn. apply N.ltb_lt. lia. }
+  reflexivity.
+Qed.
+
+(* the piece of text chosen identifies the code: different codes never share a table entry *)
+Definition code_of_ref (r : text_ref) : N :=
+  match r with
+  | TSuccess => 0 | TMsg i => 100 + i | TParam i => 200 + i | TField i => 300 + i
+  | TDevice i => 401 + i | TUnknown c => c
+  end.
+
+Lemma code_of_default_text_ref : forall c, code_of_ref (default_text_ref c) = c.
+Proof.
+  intros c. unfold default_text_ref, in_range, StatusSuccess.
+  destruct (N.eqb_spec c 0) as [E|E]; [subst; reflexivity|].
+  destruct ((100 <=? c) && (c <=? 112)) eqn:E1.
+  { apply andb_prop in E1. destruct E1 as [A B]. apply N.leb_le in A. cbn [code_of_ref]. lia. }
+  destruct ((200 <=? c) && (c <=? 209)) eqn:E2.
+  { apply andb_prop in E2. destruct E2 as [A B]. apply N.leb_le in A. cbn [code_of_ref]. lia. }
+  destruct ((300 <=? c) && (c <=? 301)) eqn:E3.
+  { apply andb_prop in E3. destruct E3 as [A B]. apply N.leb_le in A. cbn [code_of_ref]. lia. }
+  destruct ((401 <=? c) && (c <=? 401)) eqn:E4.
+  { apply andb_prop in E4. destruct E4 as [A B]. apply N.leb_le in A. cbn [code_of_ref]. lia. }
+  reflexivity.
+Qed.
+
+Lemma default_text_ref_inj : forall c c', default_text_ref c = default_text_ref c' -> c = c'.
+Proof.
+  intros c c' H. rewrite <- (code_of_default_text_ref c), <- (code_of_default_text_ref c'), H. reflexivity.
+Qed.
